@@ -137,6 +137,11 @@ def cases(draw, want_logs=False):
             'in_filter': draw(st.sampled_from([None, None, 'identity', 'upper', 'drop-x'])),
             'out_filter': draw(st.sampled_from([None, None, 'identity', 'upper', 'drop-x'])),
             'pending': draw(st.sampled_from([b'', b'', b'ING-TEXT'])),
+            # how the text pending at entry came to be pending: left over after a match, or still unmatched after a
+            # timed-out exact / windowed search (which trims the *search* buffer, not what is pending); and whether a
+            # timed-out expect() is made between the two sessions
+            'pending_kind': draw(st.sampled_from(['match', 'match', 'timeout-exact', 'timeout-window'])),
+            'expect_between': draw(st.booleans()),
             'use_poll': draw(st.booleans()),
             'child_exits': esc_mode in ('absent', 'none') or draw(st.integers(0, 5)) == 0}
     if not want_logs and draw(st.integers(0, 5)) == 0:
@@ -262,11 +267,20 @@ def check_case(case, col=None, logs=None):
             if pending:
                 # make sure the rest is in the buffer
                 t0 = time.time()
+                never = '\x00never\x00' if text_mode else b'\x00never\x00'
                 while len(child.buffer) < len(pending) and time.time() - t0 < 5:
                     try:
-                        child.expect_exact('\x00never\x00' if text_mode else b'\x00never\x00', timeout=0.05)
+                        child.expect(never, timeout=0.05)        # (a regex search without window trims nothing)
                     except TIMEOUT:
                         pass
+                kind_ = case.get('pending_kind', 'match')
+                try:
+                    if kind_ == 'timeout-exact':
+                        child.expect_exact('ZQ' if text_mode else b'ZQ', timeout=0.02)
+                    elif kind_ == 'timeout-window':
+                        child.expect(never, timeout=0.02, searchwindowsize=3)
+                except TIMEOUT:
+                    pass
             for name in (logs or []):
                 reclogs[name] = peers.RecLog()
                 setattr(child, name, reclogs[name])
@@ -355,6 +369,14 @@ def check_case(case, col=None, logs=None):
                 # interact() again on the same object: only output not yet shown may appear (the pending text of
                 # the first session must not come back), and the session ends at the escape character again
                 result2 = {}
+                if case.get('expect_between') and not text_mode and not out_f:
+                    # (unicode mode: the first session may have ended inside a character; with an output filter it is
+                    #  not specified whether text that is pending at entry passes through it)
+                    try:
+                        child.expect('\x00never\x00' if text_mode else b'\x00never\x00', timeout=0.02)
+                    except TIMEOUT:
+                        pass
+                    # (whatever this call read is pending again and belongs to the second session's output)
 
                 def run2():
                     try:
